@@ -323,6 +323,19 @@ pub fn read_document(s: &str) -> Result<ANode, String> {
     to_adoc(&toks)
 }
 
+/// like `read_document`, for a complete XML document: white space between the
+/// top-level constructs (after the XML declaration, around the root) is not content
+pub fn read_xml_document(s: &str) -> Result<ANode, String> {
+    match read_document(s)? {
+        ANode::Document(ch) => Ok(ANode::Document(
+            ch.into_iter()
+                .filter(|c| !matches!(c, ANode::Text(t) if t.chars().all(|c| c == ' ' || c == '\t' || c == '\n')))
+                .collect(),
+        )),
+        other => Ok(other),
+    }
+}
+
 #[cfg(test)]
 mod tests {
     use super::*;
